@@ -157,6 +157,8 @@ class BaseRequest(MutableMapping[str | RequestKey[Any], Any], HeadersMixin):
     _post: MultiDictProxy[str | bytes | FileField] | None = None
     _read_bytes: bytes | None = None
     _pre_handler_error: HTTPBadRequest | None = None
+    # the response object whose head has been handed to the writer for this request
+    _started_response: "StreamResponse | None" = None
 
     def __init__(
         self,
